@@ -9,3 +9,6 @@ _reg("C01")
 _reg("C02")
 _reg("C03")
 _reg("C04")
+_reg("C05")
+_reg("C06")
+_reg("C07")
